@@ -172,6 +172,14 @@ func (g *pkgGen) T(d int) *Node {
 		}
 		return L(xs...)
 	case 8:
+		if g.r.Chance(1, 5) {
+			// a refused in-package (a documentation argument that is not a
+			// string), swallowed, then the well-formed call for the same name:
+			// whatever the refused call did or did not do, the package must
+			// come out like any other (possibly new) package
+			p := PickStr(g.r, pkgNames)
+			return Call("progn", Call("ignore-errors", Call("in-package", QS(p), I(42))), Call("in-package", QS(p)))
+		}
 		return Call("in-package", QS(PickStr(g.r, pkgNames)))
 	case 9:
 		xs := []*Node{A("export")}
@@ -632,6 +640,12 @@ func (m *pmodel) eval(n *Node, lex *penv) (pval, *perr) {
 			}
 		}
 		m.cur = name
+		if len(args) > 1 {
+			// only generated with a non-string documentation argument, and
+			// always followed by the well-formed call (see the generator)
+			m.stats["reach_in_package_refused"]++
+			return pval{}, merr()
+		}
 		return pval{}, nil
 	case "export":
 		p := m.pkgs[m.cur]
@@ -820,7 +834,9 @@ func pkgValid(n *Node) bool {
 		return len(args) == 2 && q(args[0]) && pkgValid(args[1])
 	case "set!":
 		return len(args) == 2 && !args[0].IsL && pkgValid(args[1])
-	case "in-package", "use-package":
+	case "in-package":
+		return (len(args) == 1 || len(args) == 2 && !args[1].IsL && args[1].Atom == "42") && q(args[0])
+	case "use-package":
 		return len(args) == 1 && q(args[0])
 	case "export":
 		if len(args) < 1 {
